@@ -223,7 +223,8 @@ Verdict(I, a) ==
   ELSE Walk(I.T, UpMap(I.T, a.down), a.now, a.pkt, a.at, a.ifin, <<>>)
 
 AtkHopOut(I, h) == [seg |-> h.seg, idx |-> h.idx, pk |-> h.pk, in |-> h.in, eg |-> h.eg, exp |-> h.exp,
-                    mb |-> h.mac # OrigMac(I, h)]
+                    \* MAC corrupted (one-hop hop fields are not copied from a segment: corrupted = the junk MAC)
+                    mb |-> IF h.seg = 0 THEN h.mac = Junk ELSE h.mac # OrigMac(I, h)]
 \* the accumulator of a piece is described as <<segment, i>> with segid = BetaAt(segment, i); a walked packet
 \* carries a different index than the piece it was cut from; sx = no such index (corrupted)
 AtkPieceOut(I, q) ==
